@@ -1,4 +1,4 @@
-import IoraModel.Lemmas.TpLock
+import IoraModel.Lemmas.TpNoRestart
 /-!
 # C09 — conservation: every accepted submission is in exactly one place (queue, a worker's hand, done),
 and bodies are started exactly as often as tasks were taken into execution
@@ -179,6 +179,7 @@ theorem transW_balance (cfg : Cfg) (sh : Shared) (n : Nat) (t : Tid) (w : WSt) :
       simp only [e.1, e.2]
       exact bodyEnd_balance cfg sh id
     · exact balance_same _ _ _ _ rfl rfl rfl rfl
+  | cfgUnlock id again => simp only [transW, taskDone]; split <;> exact balance_same _ _ _ _ rfl rfl rfl rfl
   | _ => simp only [transW, taskDone] <;> exact balance_same _ _ _ _ rfl rfl rfl rfl
 
 theorem transS_balance (cfg : Cfg) (sh : Shared) (n : Nat) (t : Tid) (x : SSt) :
@@ -201,9 +202,9 @@ theorem pollHead_ledger (sh : Shared) (r : MRegs) (k : Poll) :
   unfold pollHead; split
   · simp
   · exact pollExit_ledger sh r k false
-theorem stepMYield_ledger (sh : Shared) (r : MRegs) :
-    (stepMYield sh r).1.tasks = sh.tasks ∧ (stepMYield sh r).1.accCnt = sh.accCnt ∧
-    (stepMYield sh r).1.startCnt = sh.startCnt ∧ (stepMYield sh r).1.doneCnt = sh.doneCnt := by
+theorem stepMYield_ledger (cfg : Cfg) (sh : Shared) (r : MRegs) :
+    (stepMYield cfg sh r).1.tasks = sh.tasks ∧ (stepMYield cfg sh r).1.accCnt = sh.accCnt ∧
+    (stepMYield cfg sh r).1.startCnt = sh.startCnt ∧ (stepMYield cfg sh r).1.doneCnt = sh.doneCnt := by
   unfold stepMYield drainEnter; (repeat' split) <;> simp
 theorem drainReturn_ledger (sh : Shared) (r : MRegs) (b : Bool) :
     (drainReturn sh r b).1.tasks = sh.tasks ∧ (drainReturn sh r b).1.accCnt = sh.accCnt ∧
@@ -222,9 +223,17 @@ theorem balance_of_same (sh sh' : Shared) (h : sh'.tasks = sh.tasks ∧ sh'.accC
     sh'.doneCnt = sh.doneCnt) : Balance sh sh' none none none none :=
   balance_same _ _ _ _ h.1 h.2.1 h.2.2.1 h.2.2.2
 
-theorem transM_balance (cfg : Cfg) (sh : Shared) (n : Nat) (t : Tid) (pc : MPc) (r : MRegs) (alt : Nat) :
+theorem dtorEarly_ledger (sh : Shared) (r : MRegs) :
+    (dtorEarly sh r).1.tasks = sh.tasks ∧ (dtorEarly sh r).1.accCnt = sh.accCnt ∧
+    (dtorEarly sh r).1.startCnt = sh.startCnt ∧ (dtorEarly sh r).1.doneCnt = sh.doneCnt := by
+  unfold dtorEarly; split
+  · exact dtorReturn_ledger sh r
+  · simp
+
+theorem transM_balance (cfg : Cfg) (sh : Shared) (n : Nat) (t : Tid) (pc : MPc) (r : MRegs) (alt : Nat) (hnr : restartPc pc = false) :
     Balance sh (transM cfg sh n t pc r alt).1 none none none none := by
   cases pc with
+  | rsL => simp [restartPc] at hnr
   | inCall c =>
     simp only [transM]
     have h := callStep_ledger cfg sh n t c none none
@@ -232,20 +241,20 @@ theorem transM_balance (cfg : Cfg) (sh : Shared) (n : Nat) (t : Tid) (pc : MPc) 
   | _ =>
     apply balance_of_same
     simp only [transM] <;> (repeat' split) <;>
-    (try simp only [pollExit_ledger, pollHead_ledger, stepMYield_ledger, drainReturn_ledger, shutdownReturn_ledger, dtorReturn_ledger]) <;>
+    (try simp only [pollExit_ledger, pollHead_ledger, stepMYield_ledger, drainReturn_ledger, shutdownReturn_ledger, dtorReturn_ledger, dtorEarly_ledger]) <;>
     simp
 
-theorem trans_balance (cfg : Cfg) (sh : Shared) (n : Nat) (t : Tid) (th : Thread) (alt : Nat) :
+theorem trans_balance (cfg : Cfg) (sh : Shared) (n : Nat) (t : Tid) (th : Thread) (alt : Nat) (hnr : restartTh th = false) :
     Balance sh (trans cfg sh n t th alt).1 (cur th) (cur (trans cfg sh n t th alt).2.1)
       (running th) (running (trans cfg sh n t th alt).2.1) := by
   cases th with
-  | main pc r => simpa [trans, cur, running] using transM_balance cfg sh n t pc r alt
+  | main pc r => simpa [trans, cur, running] using transM_balance cfg sh n t pc r alt hnr
   | sub x => simpa [trans, cur, running] using transS_balance cfg sh n t x
   | worker w => simpa [trans] using transW_balance cfg sh n t w
 
 theorem fresh_cur (nt : Thread) (h : isFresh nt = true) : cur nt = none ∧ running nt = none := by
   cases nt with
-  | main pc r => simp [isFresh] at h
+  | main pc r => simp [cur, running]
   | sub x => simp [cur, running]
   | worker w => cases w <;> simp [isFresh] at h; simp [cur, running]
 
@@ -281,7 +290,7 @@ theorem woken_cur (th : Thread) (to : Bool) (h : wokenBy th = some to) : cur th 
   | sub x => simp [wokenBy] at h
   | worker w => cases w <;> simp [wokenBy] at h; simp [cur, running]
 
-theorem conserved_step (cfg : Cfg) (s : St) (c : Choice) (h : Conserved s) : Conserved (step cfg s c) := by
+theorem conserved_step (cfg : Cfg) (s : St) (c : Choice) (hn : NoRs s) (h : Conserved s) : Conserved (step cfg s c) := by
   apply step_cases cfg s c Conserved
   · exact h
   · intro t th b hget _
@@ -298,7 +307,7 @@ theorem conserved_step (cfg : Cfg) (s : St) (c : Choice) (h : Conserved s) : Con
     · intro id; rfl
     · intro id; rfl
   · intro t th alt l hget _ _ _ _ hp
-    have hb := trans_balance cfg s.sh s.thr.length t th alt
+    have hb := trans_balance cfg s.sh s.thr.length t th alt (hn t th hget)
     apply conserved_of_balance s _ t th _ l h hget hb
     · intro id
       have := applyPost_countP (fun th => decide (cur th = some id)) (by simp) _ l _ alt hp
@@ -313,7 +322,10 @@ theorem conserved_step (cfg : Cfg) (s : St) (c : Choice) (h : Conserved s) : Con
       | spawn nt => simp [postAdd, (fresh_cur nt (trans_spawn cfg s.sh s.thr.length t th alt nt hpost)).2]
       | _ => simp [postAdd]
 
-theorem conserved_run (cfg : Cfg) (sched : List Choice) : Conserved (run cfg sched) :=
-  inv_run cfg Conserved (conserved_init cfg) (fun s c h => conserved_step cfg s c h) sched
+theorem conserved_run (cfg : Cfg) (hr : cfg.allowRestart = false) (sched : List Choice) : Conserved (run cfg sched) := by
+  have : NoRs (run cfg sched) ∧ Conserved (run cfg sched) :=
+    inv_run cfg (fun s => NoRs s ∧ Conserved s) ⟨noRs_init cfg, conserved_init cfg⟩
+      (fun s c h => ⟨noRs_step cfg hr s c h.1, conserved_step cfg s c h.1 h.2⟩) sched
+  exact this.2
 
 end Iora.ThreadPool
